@@ -3,8 +3,10 @@
 D=$1; shift
 cd /repo && git apply "$D" || { echo "APPLY FAILED"; exit 9; }
 cd /verif
+rm -rf /tmp/ev_backup_$$; cp -r evidence /tmp/ev_backup_$$   # evidence files must come from the UNCHANGED tree: restore them afterwards
 for P in "$@"; do
   ./check $P > /tmp/try_seed_$P.log 2>&1; rc=$?
   echo "== $P exit=$rc"; grep -E "^\[|VIOLATION|UNDECIDED|CHECKER-CRASH|KNOWN" /tmp/try_seed_$P.log | cut -c1-220 | head -8
 done
 cd /repo && git checkout -- . && git status --short | head -3
+rm -rf /verif/evidence; mv /tmp/ev_backup_$$ /verif/evidence
